@@ -1,6 +1,462 @@
-//! C06 harnesses (see /verif/kani/README.md for conventions)
+//! C06: comparison, equality, hashing and conditional selection are mutually coherent.
+//!
+//! Reference semantics: the u64/u128/i128 order of the represented values (lexicographic on limbs for U192).
+//! Bounds: Limb, U64, U128, U192 (thorough), I64, I128 -- all values; BoxedUint with 1 or 2 limbs in the
+//! precision combinations (1,1), (1,2), (2,1), (2,2) -- all limb values. Every harness is loop-free up to the
+//! fixed limb counts.
 use crate::*;
+use crate::util::*;
 use crypto_bigint::*;
+use crypto_bigint::subtle::{
+    Choice, ConditionallyNegatable, ConditionallySelectable, ConstantTimeEq, ConstantTimeGreater, ConstantTimeLess,
+    CtOption,
+};
+use core::cmp::Ordering;
+use core::hash::{Hash, Hasher};
+
+/// Records every byte written by `Hash::hash`: "hash equally" is checked on the exact byte stream, which decides the
+/// outcome for *every* deterministic hasher. `finish` is FNV-1a over the recorded bytes; it is only called on
+/// literal inputs (a chain of symbolic 64-bit multiplications does not get through CBMC).
+struct RecHasher { buf: [u8; 32], len: usize }
+impl RecHasher {
+    fn new() -> Self { Self { buf: [0; 32], len: 0 } }
+    fn same_stream(&self, o: &Self) -> bool {
+        if self.len != o.len || self.len > 32 { return false; }
+        let mut i = 0;
+        let mut eq = true;
+        while i < 32 { if i < self.len { eq &= self.buf[i] == o.buf[i]; } i += 1; }
+        eq
+    }
+}
+impl Hasher for RecHasher {
+    fn finish(&self) -> u64 {
+        let mut h: u64 = 0xcbf29ce484222325;
+        let mut i = 0;
+        while i < 32 { if i < self.len { h = (h ^ self.buf[i] as u64).wrapping_mul(0x100000001b3); } i += 1; }
+        h
+    }
+    fn write(&mut self, bytes: &[u8]) {
+        let mut i = 0;
+        while i < bytes.len() {
+            if self.len < 32 { self.buf[self.len] = bytes[i]; }
+            self.len += 1;
+            i += 1;
+        }
+    }
+}
+fn rec<T: Hash>(x: &T) -> RecHasher { let mut h = RecHasher::new(); x.hash(&mut h); h }
+
+fn ord_u128(a: u128, b: u128) -> Ordering { if a < b { Ordering::Less } else if a > b { Ordering::Greater } else { Ordering::Equal } }
+fn ord_i128(a: i128, b: i128) -> Ordering { if a < b { Ordering::Less } else if a > b { Ordering::Greater } else { Ordering::Equal } }
+fn i64_of(x: &I64) -> i64 { x.as_words()[0] as i64 }
+fn i128_of(x: &I128) -> i128 { let w = x.as_words(); (w[0] as u128 | ((w[1] as u128) << 64)) as i128 }
+fn boxed_u128(b: &BoxedUint) -> u128 {
+    let w = b.as_words();
+    let mut v: u128 = 0;
+    if w.len() > 0 { v |= w[0] as u128; }
+    if w.len() > 1 { v |= (w[1] as u128) << 64; }
+    v
+}
+
+/// every comparison form of `T` agrees with the reference ordering `ord` of (a, b) -- and with each other
+fn check_cmp<T>(a: &T, b: &T, ord: Ordering)
+where T: ConstantTimeEq + ConstantTimeGreater + ConstantTimeLess + Ord {
+    check_cmp_ct(a, b, ord);
+    check_cmp_ops(a, b, ord);
+    assert!(bool::from(b.ct_gt(a)) == (ord == Ordering::Less));
+    assert!(bool::from(b.ct_lt(a)) == (ord == Ordering::Greater));
+    assert!(b.cmp(a) == ord.reverse());
+}
+/// constant-time predicates
+fn check_cmp_ct<T>(a: &T, b: &T, ord: Ordering)
+where T: ConstantTimeEq + ConstantTimeGreater + ConstantTimeLess {
+    let (lt, eq, gt) = (ord == Ordering::Less, ord == Ordering::Equal, ord == Ordering::Greater);
+    assert!(bool::from(a.ct_eq(b)) == eq);
+    assert!(bool::from(a.ct_ne(b)) == !eq);
+    assert!(bool::from(a.ct_gt(b)) == gt);
+    assert!(bool::from(a.ct_lt(b)) == lt);
+}
+/// operator / Ord forms
+fn check_cmp_ops<T>(a: &T, b: &T, ord: Ordering)
+where T: Ord {
+    let (lt, eq, gt) = (ord == Ordering::Less, ord == Ordering::Equal, ord == Ordering::Greater);
+    assert!((a == b) == eq);
+    assert!((a != b) == !eq);
+    assert!((a < b) == lt);
+    assert!((a <= b) == !gt);
+    assert!((a > b) == gt);
+    assert!((a >= b) == !lt);
+    assert!(a.cmp(b) == ord);
+    assert!(a.partial_cmp(b) == Some(ord));
+}
+/// select / assign / swap in both trait families return exactly the chosen operand
+fn check_sel<T, F>(a: T, b: T, ch: bool, val: F)
+where T: ConditionallySelectable + ConstantTimeSelect, F: Fn(&T) -> u128 {
+    let c = Choice::from(ch as u8);
+    let (va, vb) = (val(&a), val(&b));
+    let (chosen, other) = if ch { (vb, va) } else { (va, vb) };
+    assert!(val(&T::conditional_select(&a, &b, c)) == chosen);
+    let mut t = a; t.conditional_assign(&b, c);
+    assert!(val(&t) == chosen);
+    let (mut x, mut y) = (a, b);
+    T::conditional_swap(&mut x, &mut y, c);
+    assert!(val(&x) == chosen && val(&y) == other);
+    assert!(val(&<T as ConstantTimeSelect>::ct_select(&a, &b, c)) == chosen);
+    let mut t = a; <T as ConstantTimeSelect>::ct_assign(&mut t, &b, c);
+    assert!(val(&t) == chosen);
+    let (mut x, mut y) = (a, b);
+    <T as ConstantTimeSelect>::ct_swap(&mut x, &mut y, c);
+    assert!(val(&x) == chosen && val(&y) == other);
+}
+
+fn mk_boxed(w: [u64; 2], two: bool) -> BoxedUint { if two { BoxedUint::from_words([w[0], w[1]]) } else { BoxedUint::from_words([w[0]]) } }
+
+/// BoxedUint comparison cases with *literal* limb counts (a symbolic allocation size is very expensive in CBMC).
+/// `ops = false`: constant-time predicates + zero/one/odd/even tests; `ops = true`: ==, !=, <, <=, >, >=, cmp, partial_cmp.
+/// (The reversed comparisons are the harness with the precisions exchanged.)
+fn cmp_boxed_case<S: Src>(s: &mut S, ta: bool, tb: bool, ops: bool) {
+    let (x, y): ([u64; 2], [u64; 2]) = (s.words(), s.words());
+    let (a, b) = (mk_boxed(x, ta), mk_boxed(y, tb));
+    let va = if ta { x[0] as u128 | ((x[1] as u128) << 64) } else { x[0] as u128 };
+    let vb = if tb { y[0] as u128 | ((y[1] as u128) << 64) } else { y[0] as u128 };
+    let ord = ord_u128(va, vb);
+    if ops {
+        check_cmp_ops(&a, &b, ord);
+    } else {
+        check_cmp_ct(&a, &b, ord);
+        assert!(bool::from(a.is_zero()) == (va == 0));
+        assert!(bool::from(a.is_nonzero()) == (va != 0));
+        assert!(bool::from(a.is_one()) == (va == 1));
+        assert!(num_traits::Zero::is_zero(&a) == (va == 0));
+        assert!(num_traits::One::is_one(&a) == (va == 1));
+        assert!(bool::from(Integer::is_odd(&a)) == (va & 1 == 1));
+        assert!(bool::from(Integer::is_even(&a)) == (va & 1 == 0));
+    }
+    cov!(s, va == vb);                                               // (zero-padded) equal values
+    cov!(s, va < vb);
+    cov!(s, va > vb);
+    cov!(s, va != vb && x[0] == y[0]);                               // differ only in the limb one side may lack
+}
+fn cmp_vartime_boxed_case<S: Src>(s: &mut S, ta: bool, tb: bool) {
+    let (x, y): ([u64; 2], [u64; 2]) = (s.words(), s.words());
+    let (a, b) = (mk_boxed(x, ta), mk_boxed(y, tb));
+    let va = if ta { x[0] as u128 | ((x[1] as u128) << 64) } else { x[0] as u128 };
+    let vb = if tb { y[0] as u128 | ((y[1] as u128) << 64) } else { y[0] as u128 };
+    assert!(a.cmp_vartime(&b) == ord_u128(va, vb));
+    cov!(s, va == vb);
+    cov!(s, va < vb);
+}
+fn select_boxed_case<S: Src>(s: &mut S, two: bool) {
+    let (x, y): ([u64; 2], [u64; 2]) = (s.words(), s.words());
+    let ch = s.bool();
+    let c = Choice::from(ch as u8);
+    let (a, b) = (mk_boxed(x, two), mk_boxed(y, two));
+    let (va, vb) = (boxed_u128(&a), boxed_u128(&b));
+    let (chosen, other) = if ch { (vb, va) } else { (va, vb) };
+    let n = if two { 2 } else { 1 };
+    let r = BoxedUint::ct_select(&a, &b, c);
+    assert!(r.nlimbs() == n && boxed_u128(&r) == chosen);
+    let mut t = a.clone(); t.ct_assign(&b, c);
+    assert!(t.nlimbs() == n && boxed_u128(&t) == chosen);
+    let (mut u, mut v) = (a.clone(), b.clone());
+    BoxedUint::ct_swap(&mut u, &mut v, c);
+    assert!(u.nlimbs() == n && v.nlimbs() == n && boxed_u128(&u) == chosen && boxed_u128(&v) == other);
+    cov!(s, ch && va != vb);
+    cov!(s, !ch && va != vb);
+}
 
 harnesses! {
+    // ------------------------------------------------------------------ comparisons
+    /// Limb: ct_eq/ct_ne/ct_gt/ct_lt, ==,<,<=,>,>=, cmp, partial_cmp, cmp_vartime, eq_vartime, is_zero, is_one, is_odd.
+    fn c06_cmp_limb(s) {
+        let (x, y) = (s.u64(), s.u64());
+        let (a, b) = (Limb(x), Limb(y));
+        let ord = ord_u128(x as u128, y as u128);
+        check_cmp(&a, &b, ord);
+        assert!(a.cmp_vartime(&b) == ord);
+        assert!(a.eq_vartime(&b) == (x == y));
+        assert!(bool::from(Zero::is_zero(&a)) == (x == 0));
+        assert!(num_traits::Zero::is_zero(&a) == (x == 0));
+        assert!(num_traits::One::is_one(&a) == (x == 1));
+        assert!(bool::from(a.is_odd()) == (x & 1 == 1));
+        assert!(bool::from(a.to_nz().is_some()) == (x != 0));
+        cov!(s, x == y);
+        cov!(s, x == u64::MAX && y == 0);
+        cov!(s, x ^ y == 1 << 63);
+    }
+
+    /// U64 / U128: all comparison forms + cmp_vartime + zero/one/odd/even tests against the u128 order.
+    fn c06_cmp_u64(s) {
+        let (x, y) = (s.u64(), s.u64());
+        let (a, b) = (mk64(x), mk64(y));
+        let ord = ord_u128(x as u128, y as u128);
+        check_cmp(&a, &b, ord);
+        assert!(a.cmp_vartime(&b) == ord);
+        assert!(bool::from(Zero::is_zero(&a)) == (x == 0));
+        assert!(num_traits::Zero::is_zero(&a) == (x == 0));
+        assert!(num_traits::One::is_one(&a) == (x == 1));
+        assert!(bool::from(Integer::is_odd(&a)) == (x & 1 == 1));
+        assert!(bool::from(Integer::is_even(&a)) == (x & 1 == 0));
+        cov!(s, x == y);
+        cov!(s, x < y);
+    }
+    fn c06_cmp_u128(s) {
+        let (x, y) = (s.u128(), s.u128());
+        let (a, b) = (mk128(x), mk128(y));
+        let ord = ord_u128(x, y);
+        check_cmp(&a, &b, ord);
+        assert!(a.cmp_vartime(&b) == ord);
+        assert!(bool::from(Zero::is_zero(&a)) == (x == 0));
+        assert!(num_traits::Zero::is_zero(&a) == (x == 0));
+        assert!(num_traits::One::is_one(&a) == (x == 1));
+        assert!(bool::from(Integer::is_odd(&a)) == (x & 1 == 1));
+        assert!(bool::from(Integer::is_even(&a)) == (x & 1 == 0));
+        cov!(s, x == y);
+        cov!(s, x >> 64 == y >> 64 && (x as u64) < (y as u64));       // borrow through an equal high limb
+        cov!(s, x as u64 == y as u64 && x >> 64 > y >> 64);            // differ only in the highest limb
+        cov!(s, x >> 64 > y >> 64 && (x as u64) < (y as u64));         // low limb says the opposite
+        cov!(s, x == 1 << 64);                                         // is_one must look at the high limb
+    }
+
+    /// U192 (three limbs, thorough tier): comparison forms against the lexicographic order of the limbs.
+    fn c06t_cmp_u192(s) {
+        let (x, y): ([u64; 3], [u64; 3]) = (s.words(), s.words());
+        let (a, b) = (mk192(x), mk192(y));
+        let ord = if x[2] != y[2] { ord_u128(x[2] as u128, y[2] as u128) }
+                  else if x[1] != y[1] { ord_u128(x[1] as u128, y[1] as u128) }
+                  else { ord_u128(x[0] as u128, y[0] as u128) };
+        check_cmp(&a, &b, ord);
+        assert!(a.cmp_vartime(&b) == ord);
+        let zero = x[0] == 0 && x[1] == 0 && x[2] == 0;
+        assert!(bool::from(Zero::is_zero(&a)) == zero);
+        assert!(num_traits::One::is_one(&a) == (x[0] == 1 && x[1] == 0 && x[2] == 0));
+        assert!(bool::from(Integer::is_odd(&a)) == (x[0] & 1 == 1));
+        cov!(s, x[2] == y[2] && x[1] == y[1] && x[0] < y[0]);
+        cov!(s, x[2] == y[2] && x[1] > y[1] && x[0] < y[0]);
+        cov!(s, x[0] == y[0] && x[1] == y[1] && x[2] == y[2]);
+    }
+
+    /// I64: signed order (sign bit flips), is_negative / is_positive.
+    fn c06_cmp_i64(s) {
+        let (x, y) = (s.i64(), s.i64());
+        let (a, b) = (I64::from_i64(x), I64::from_i64(y));
+        let ord = ord_i128(x as i128, y as i128);
+        check_cmp(&a, &b, ord);
+        assert!(a.cmp_vartime(&b) == ord);
+        assert!(bool::from(a.is_negative()) == (x < 0) && bool::from(a.is_positive()) == (x > 0));
+        cov!(s, x == i64::MIN && y == 0);
+        cov!(s, x ^ y == i64::MIN);
+        cov!(s, x == y && x < 0);
+    }
+    /// I128: signed order, is_negative / is_positive, zero / one / min / max tests.
+    fn c06_cmp_i128(s) {
+        let (p, q) = (s.i128(), s.i128());
+        let (c, d) = (I128::from_i128(p), I128::from_i128(q));
+        let ord = ord_i128(p, q);
+        check_cmp(&c, &d, ord);
+        assert!(c.cmp_vartime(&d) == ord);
+        assert!(bool::from(c.is_negative()) == (p < 0) && bool::from(c.is_positive()) == (p > 0));
+        assert!(bool::from(Zero::is_zero(&c)) == (p == 0));
+        assert!(num_traits::Zero::is_zero(&c) == (p == 0));
+        assert!(num_traits::One::is_one(&c) == (p == 1));
+        assert!(bool::from(c.is_min()) == (p == i128::MIN) && bool::from(c.is_max()) == (p == i128::MAX));
+        cov!(s, p == i128::MIN && q == i128::MAX);
+        cov!(s, p == q && p < 0);
+        cov!(s, p ^ q == i128::MIN);                                   // differ only in the sign bit
+        cov!(s, p == -1 && q == 0);
+        cov!(s, p < 0 && q < 0 && p < q);
+        cov!(s, (p >> 64) == (q >> 64) && p < q);                      // borrow through an equal high limb
+    }
+
+    /// BoxedUint, precisions (1,1), (1,2), (2,1), (2,2) limbs: ct_eq/ct_ne/ct_gt/ct_lt and the zero/one/odd/even/nonzero
+    /// tests agree with the order of the represented values (shorter operand zero-extended).
+    #[kani::unwind(4)]
+    fn c06_cmp_boxed_ct_1_1(s) { cmp_boxed_case(s, false, false, false); }
+    #[kani::unwind(4)]
+    fn c06_cmp_boxed_ct_1_2(s) { cmp_boxed_case(s, false, true, false); }
+    #[kani::unwind(4)]
+    fn c06_cmp_boxed_ct_2_1(s) { cmp_boxed_case(s, true, false, false); }
+    #[kani::unwind(4)]
+    fn c06_cmp_boxed_ct_2_2(s) { cmp_boxed_case(s, true, true, false); }
+    /// ... and ==, !=, <, <=, >, >=, Ord::cmp, partial_cmp.
+    #[kani::unwind(4)]
+    fn c06_cmp_boxed_ops_1_1(s) { cmp_boxed_case(s, false, false, true); }
+    #[kani::unwind(4)]
+    fn c06_cmp_boxed_ops_1_2(s) { cmp_boxed_case(s, false, true, true); }
+    #[kani::unwind(4)]
+    fn c06_cmp_boxed_ops_2_1(s) { cmp_boxed_case(s, true, false, true); }
+    #[kani::unwind(4)]
+    fn c06_cmp_boxed_ops_2_2(s) { cmp_boxed_case(s, true, true, true); }
+
+    /// BoxedUint::cmp_vartime at equal precision (1 and 2 limbs).
+    #[kani::unwind(4)]
+    fn c06_cmp_vartime_boxed_1_1(s) { cmp_vartime_boxed_case(s, false, false); }
+    #[kani::unwind(4)]
+    fn c06_cmp_vartime_boxed_2_2(s) { cmp_vartime_boxed_case(s, true, true); }
+
+    /// BoxedUint::cmp_vartime at different precision, (1,2) and (2,1) limbs: must still be the order of the values
+    /// (its rustdoc states no precondition on the precisions).
+    #[kani::unwind(4)]
+    fn c06_cmp_vartime_boxed_1_2(s) { cmp_vartime_boxed_case(s, false, true); }
+    #[kani::unwind(4)]
+    fn c06_cmp_vartime_boxed_2_1(s) { cmp_vartime_boxed_case(s, true, false); }
+
+    // ------------------------------------------------------------------ selection
+    /// conditional_select/assign/swap and ct_select/ct_assign/ct_swap on Limb, U64, U128, I64, I128.
+    fn c06_select_fixed(s) {
+        let (x, y) = (s.u64(), s.u64());
+        let (p, q) = (s.u128(), s.u128());
+        let ch = s.bool();
+        check_sel(Limb(x), Limb(y), ch, |l: &Limb| l.0 as u128);
+        check_sel(mk64(x), mk64(y), ch, |u: &U64| u64_of(u) as u128);
+        check_sel(mk128(p), mk128(q), ch, |u: &U128| u128_of(u));
+        check_sel(I64::from_i64(x as i64), I64::from_i64(y as i64), ch, |i: &I64| i64_of(i) as u64 as u128);
+        check_sel(I128::from_i128(p as i128), I128::from_i128(q as i128), ch, |i: &I128| i128_of(i) as u128);
+        cov!(s, ch && p != q);
+        cov!(s, !ch && p != q);
+    }
+
+    /// U192 (thorough tier): select / assign / swap limb by limb.
+    fn c06t_select_u192(s) {
+        let (x, y): ([u64; 3], [u64; 3]) = (s.words(), s.words());
+        let ch = s.bool();
+        let c = Choice::from(ch as u8);
+        let (a, b) = (mk192(x), mk192(y));
+        let chosen = if ch { y } else { x };
+        let other = if ch { x } else { y };
+        let r = U192::conditional_select(&a, &b, c);
+        let rw = r.as_words();
+        assert!(rw[0] == chosen[0] && rw[1] == chosen[1] && rw[2] == chosen[2]);
+        let (mut u, mut v) = (a, b);
+        U192::conditional_swap(&mut u, &mut v, c);
+        let (uw, vw) = (u.as_words(), v.as_words());
+        assert!(uw[0] == chosen[0] && uw[1] == chosen[1] && uw[2] == chosen[2]);
+        assert!(vw[0] == other[0] && vw[1] == other[1] && vw[2] == other[2]);
+        let mut t = a; <U192 as ConstantTimeSelect>::ct_assign(&mut t, &b, c);
+        let tw = t.as_words();
+        assert!(tw[0] == chosen[0] && tw[1] == chosen[1] && tw[2] == chosen[2]);
+    }
+
+    /// BoxedUint (1 and 2 limbs, equal precision): ct_select / ct_assign / ct_swap return exactly the chosen operand
+    /// with the operands' precision.
+    #[kani::unwind(4)]
+    fn c06_select_boxed_1(s) { select_boxed_case(s, false); }
+    #[kani::unwind(4)]
+    fn c06_select_boxed_2(s) { select_boxed_case(s, true); }
+
+    /// conditional negation: Uint::wrapping_neg_if, Int::wrapping_neg_if (U64,U128,I64,I128) and
+    /// ConditionallyNegatable for BoxedUint (1,2 limbs): choice 0 -> the operand itself, choice 1 -> its two's
+    /// complement negation at that width (MIN maps to MIN).
+    #[kani::unwind(4)]
+    fn c06_conditional_negate(s) {
+        let x = s.u64();
+        let p = s.u128();
+        let ch = s.bool();
+        let cc = if ch { ConstChoice::TRUE } else { ConstChoice::FALSE };
+        let c = Choice::from(ch as u8);
+        assert!(bool::from(cc) == ch && bool::from(Choice::from(cc)) == ch && ConstChoice::from(c) == cc);
+        let e64 = if ch { x.wrapping_neg() } else { x };
+        let e128 = if ch { p.wrapping_neg() } else { p };
+        assert!(u64_of(&mk64(x).wrapping_neg_if(cc)) == e64);
+        assert!(u128_of(&mk128(p).wrapping_neg_if(cc)) == e128);
+        assert!(i64_of(&I64::from_i64(x as i64).wrapping_neg_if(cc)) == e64 as i64);
+        assert!(i128_of(&I128::from_i128(p as i128).wrapping_neg_if(cc)) == e128 as i128);
+        let mut b1 = BoxedUint::from_words([x]);
+        b1.conditional_negate(c);
+        assert!(b1.nlimbs() == 1 && b1.as_words()[0] == e64);
+        let mut b2 = BoxedUint::from_words([p as u64, (p >> 64) as u64]);
+        b2.conditional_negate(c);
+        assert!(b2.nlimbs() == 2 && boxed_u128(&b2) == e128);
+        cov!(s, ch && p == 1 << 127);
+        cov!(s, ch && p == 0);
+        cov!(s, !ch && p != 0);
+        cov!(s, ch && p != 0 && p as u64 == 0);
+    }
+
+    // ------------------------------------------------------------------ option-like results
+    /// CtOption / ConstCtOption producers report is_some exactly as documented and `unwrap_or` returns exactly the
+    /// value resp. the default: CheckedAdd (carry), overflowing_shl (None iff shift >= BITS), Int::checked_neg
+    /// (None iff MIN), Int::new_from_abs_sign (None iff magnitude does not fit), to_nz.
+    fn c06_option_forms(s) {
+        let (x, y, d) = (s.u64(), s.u64(), s.u64());
+        let p = s.i128();
+        let dflt = s.i128();
+        // CtOption
+        let r = mk64(x).checked_add(&mk64(y));
+        let of = x.checked_add(y);
+        assert!(bool::from(r.is_some()) == of.is_some() && bool::from(r.is_none()) == of.is_none());
+        assert!(u64_of(&r.unwrap_or(mk64(d))) == of.unwrap_or(d));
+        // ConstCtOption<Uint>
+        let sh = s.u32();
+        s.assume(sh <= 130);
+        let r = mk64(x).overflowing_shl(sh);
+        assert!(bool::from(r.is_some()) == (sh < 64) && bool::from(r.is_none()) == (sh >= 64));
+        let as_ct: CtOption<U64> = r.clone().into();
+        let as_opt: Option<U64> = r.clone().into();
+        assert!(bool::from(as_ct.is_some()) == (sh < 64) && as_opt.is_some() == (sh < 64));
+        assert!(u64_of(&r.unwrap_or(mk64(d))) == if sh < 64 { x << sh } else { d });
+        // ConstCtOption<Int>
+        let r = I128::from_i128(p).checked_neg();
+        assert!(bool::from(r.is_some()) == (p != i128::MIN));
+        assert!(i128_of(&r.unwrap_or(I128::from_i128(dflt))) == if p != i128::MIN { -p } else { dflt });
+        let mag = s.u128();
+        let neg = s.bool();
+        let r = I128::new_from_abs_sign(mk128(mag), if neg { ConstChoice::TRUE } else { ConstChoice::FALSE });
+        let fits = mag <= i128::MAX as u128 || (neg && mag == 1u128 << 127);
+        assert!(bool::from(r.is_some()) == fits);
+        let expect = if fits { if neg { (mag as i128).wrapping_neg() } else { mag as i128 } } else { dflt };
+        assert!(i128_of(&r.unwrap_or(I128::from_i128(dflt))) == expect);
+        cov!(s, sh == 64);
+        cov!(s, sh == 63);
+        cov!(s, of.is_none());
+        cov!(s, p == i128::MIN);
+        cov!(s, neg && mag == 1u128 << 127);
+        cov!(s, !neg && mag == 1u128 << 127);
+    }
+
+    // ------------------------------------------------------------------ Hash vs Eq
+    /// Limb, U64, U128, I128: values that compare equal feed the hasher the same byte stream (hence hash equally
+    /// with every hasher).
+    #[kani::unwind(34)]
+    fn c06_hash_eq_fixed(s) {
+        let (x, y) = (s.u64(), s.u64());
+        let (p, q) = (s.u128(), s.u128());
+        if Limb(x) == Limb(y) { assert!(rec(&Limb(x)).same_stream(&rec(&Limb(y)))); }
+        if mk64(x) == mk64(y) { assert!(rec(&mk64(x)).same_stream(&rec(&mk64(y)))); }
+        if mk128(p) == mk128(q) { assert!(rec(&mk128(p)).same_stream(&rec(&mk128(q)))); }
+        let (ip, iq) = (I128::from_i128(p as i128), I128::from_i128(q as i128));
+        if ip == iq { assert!(rec(&ip).same_stream(&rec(&iq))); }
+        let nz = (NonZero::new(mk128(p | 1)).unwrap(), NonZero::new(mk128(q | 1)).unwrap());
+        if nz.0 == nz.1 { assert!(rec(&nz.0).same_stream(&rec(&nz.1))); }
+        cov!(s, p == q && x == y);
+        cov!(s, rec(&mk128(p)).len == 24 || rec(&mk128(p)).len == 16);
+    }
+
+    /// BoxedUint, same precision (2 limbs): == implies equal hash input.
+    #[kani::unwind(34)]
+    fn c06_hash_eq_boxed_same_precision(s) {
+        let (x, y): ([u64; 2], [u64; 2]) = (s.words(), s.words());
+        let (a, b) = (BoxedUint::from_words([x[0], x[1]]), BoxedUint::from_words([y[0], y[1]]));
+        if a == b { assert!(rec(&a).same_stream(&rec(&b))); }
+        cov!(s, a == b);
+    }
+
+    /// BoxedUint, different precision holding the same value (`from_words([w])` vs `from_words([w, 0])`, every w):
+    /// they compare equal (==, cmp), so they must feed the hasher the same bytes.
+    #[kani::unwind(34)]
+    fn c06_hash_eq_boxed_mixed_precision(s) {
+        let w = s.u64();
+        let (a, b) = (BoxedUint::from_words([w]), BoxedUint::from_words([w, 0]));
+        assert!(a == b);
+        assert!(a.cmp(&b) == Ordering::Equal);
+        assert!(rec(&a).same_stream(&rec(&b)));
+    }
+
+    /// The literal instance `from_words([1])` vs `from_words([1, 0])` with FNV-1a: equal values, equal hashes.
+    #[kani::unwind(34)]
+    fn c06_hash_fnv_literal_boxed_mixed_precision(s) {
+        let (a, b) = (BoxedUint::from_words([1]), BoxedUint::from_words([1, 0]));
+        assert!(a == b);
+        assert!(rec(&a).finish() == rec(&b).finish());
+    }
 }
